@@ -45,9 +45,11 @@ class HistResult:
         self.outcomes = {}
         self.distinct = set()
         self.histories = 0
+        self.races = 0
+        self.race_excerpt = ""
 
 
-def run_hist(harness_args, tier, seed, tag, timeout=3000, env=None, use_driver=True):
+def run_hist(harness_args, tier, seed, tag, timeout=3000, env=None, use_driver=True, binary=None):
     work = vc.scratch_dir(tag)
     r = HistResult()
     try:
@@ -55,10 +57,14 @@ def run_hist(harness_args, tier, seed, tag, timeout=3000, env=None, use_driver=T
         e["VERIF_TIER"] = tier
         if env:
             e.update(env)
-        cmd = [vc.HARNESS] + [str(x) for x in harness_args] + ["-seed", str(seed), "-work", work]
+        cmd = [binary or vc.HARNESS] + [str(x) for x in harness_args] + ["-seed", str(seed), "-work", work]
         try:
             p = subprocess.run(cmd, stdout=subprocess.PIPE, stderr=subprocess.PIPE, text=True, timeout=timeout, env=e)
             trace, r.rc, r.stderr = p.stdout, p.returncode, p.stderr[-3000:]
+            r.races = p.stderr.count("WARNING: DATA RACE")
+            if r.races:
+                i = p.stderr.index("WARNING: DATA RACE")
+                r.race_excerpt = p.stderr[i:i + 2500]
         except subprocess.TimeoutExpired as ex:
             trace = ex.stdout if isinstance(ex.stdout, str) else (ex.stdout or b"").decode("utf8", "replace")
             r.rc, r.stderr = 124, "harness timeout (deadlock?)"
